@@ -74,6 +74,7 @@ type Config struct {
 	NShards      int
 	Gas          map[string]map[string]uint64
 	EnableChange bool
+	ChangeBeforeCreate bool // the schedule reaches the factories as a change that arrives before their containers are created
 	Activation   uint32
 }
 
@@ -200,6 +201,7 @@ func New(cfg Config, addrs []*AddrInfo) (*World, error) {
 		if s == cfg.NShards {
 			sh.ID = vmcommon.MetachainShardId
 		}
+		sh.ChangeBeforeCreate = cfg.ChangeBeforeCreate
 		if err := sh.BuildContainer(CloneGas(cfg.Gas), dns, cfg.EnableChange, cfg.Activation); err != nil {
 			return nil, err
 		}
